@@ -76,6 +76,8 @@ pub fn run_counter(in_path: &str, out_dir: &str, cfg: &CtrCfg, ctl: Option<&Arc<
     let _ = std::fs::create_dir_all(out_dir);
     // files already present before the run (other runs of a history, planted stale files) are not this run's leftovers
     let pre_existing: Option<HashSet<String>> = std::fs::read_dir(out_dir).ok().map(|rd| rd.flatten().map(|e| e.file_name().to_string_lossy().into_owned()).collect());
+    // every other run finds a stale (longer, different) counts table from "an earlier run" in the directory
+    super::oligo::prepare_output(&format!("{}/kmers.counts", out_dir));
     if let Some(c) = ctl {
         c.install();
     }
